@@ -60,6 +60,7 @@ type stats struct {
 	Unknown     int                `json:"unknown_steps"`
 	Unfinished  int                `json:"unfinished"`
 	Stress      int                `json:"stress_runs"`
+	SlowFetch   int                `json:"slow_fetch_runs"`
 	E2ERuns     int                `json:"e2e_runs"`
 	E2EReq      int                `json:"e2e_requests"`
 	E2EReloads  int                `json:"e2e_reloads"`
@@ -107,12 +108,13 @@ const (
 )
 
 type cacheRig struct {
-	cache  *lite.VerifPingCache
-	fg     *flightGroup
-	offset atomic.Int64
-	nextF  atomic.Int64
-	tw     *tracefmt.Writer
-	gate   bool
+	cache   *lite.VerifPingCache
+	fg      *flightGroup
+	offset  atomic.Int64
+	nextF   atomic.Int64
+	tw      *tracefmt.Writer
+	gate    bool
+	inFetch func() // runs while the loader is fetching (between fbegin and fend)
 }
 
 func newCacheRig(tw *tracefmt.Writer, c *sched.Controller) *cacheRig {
@@ -150,6 +152,9 @@ func (r *cacheRig) load(name, key string) {
 			lite.VerifPoint("pc.loader")
 		} else {
 			runtime.Gosched()
+		}
+		if f := r.inFetch; f != nil {
+			f()
 		}
 		r.tw.Emit(tracefmt.Rec{"ev": "fend", "f": f})
 		return "v" + strconv.Itoa(f), nil
@@ -285,6 +290,32 @@ func TestSchedules(t *testing.T) {
 	}
 
 	lap("stress")
+	// scripted histories: a fetch that takes longer than the TTL (the clock passes the TTL while the
+	// loader runs), then requests after one to three further TTLs
+	for during := 1; during <= 2; during++ {
+		for after := 1; after <= 3; after++ {
+			for _, key2 := range []string{"a", "b"} {
+				tw.Emit(tracefmt.Rec{"ev": "reset", "kind": "slow-fetch", "n": during*10 + after})
+				rig := newCacheRig(tw, nil)
+				d := during
+				rig.inFetch = func() {
+					for k := 0; k < d; k++ {
+						rig.tick()
+					}
+				}
+				rig.load("q1", "a")
+				rig.inFetch = nil
+				for k := 0; k < after; k++ {
+					rig.tick()
+				}
+				rig.load("q2", key2)
+				rig.load("q3", "a")
+				tw.Emit(tracefmt.Rec{"ev": "done"})
+				st.SlowFetch++
+			}
+		}
+	}
+	lap("slow_fetch")
 	e2eCache(t, tw, &st, rng, tracefmt.EnvInt("VERIF_E2E", 12))
 	lap("e2e_cache")
 	e2eFallback(t, tw, &st, rng, tracefmt.EnvInt("VERIF_RESOLVE", 40))
